@@ -100,6 +100,8 @@ def null_unsteady_scenarios(rng, tier):
             if (i + r) % 3 == 2:
                 sc["regime"] = int((4, 6)[int(rng.integers(2))])
                 sc["regime_switch"] = [regime, regime, 0.0]
+            if (i + r) % 4 == 1:      # the ordinals (and what get_regime returns) as enum members / numpy integers
+                sc["spelling"] = ("enum", "np.uint8")[(i // 4 + r) % 2]
             sc["F0"] = [float(v) for v in c06.random_F0(rng).reshape(-1)]
             out.append(sc)
     return out
@@ -198,7 +200,8 @@ def run(chk):
         "regime dispatch: Model_core.derivs tied to the generated derivatives (symbolic regime ordinal) by instance lemmas; update/rhs model tied by trace validation",
         "NOT proved: that LSODA returns a state block unchanged when its derivative is identically zero (true of linear multistep methods; observed bit-exactly on every run)",
     ]
-    chk.cov["rule"] = ("dispatch: all regime ordinals -2..10 x phase 0..2 x fabric 0..6 (273 calls of derivatives, exception type vs model, exhaustive over that box); "
+    chk.cov["rule"] = ("dispatch: all regime ordinals -2..10 x phase 0..2 x fabric 0..6 (273 calls of derivatives, exception type vs model, exhaustive over that box) on generic inputs, "
+                       "on inputs whose slip invariants all vanish exactly (axis-aligned grains + diagonal strain rate, zero strain rate: 546 calls) and with numpy-integer ordinals / keyword arguments; "
                        "histories: zero velocity gradient in every accepted regime, the two viscosity-bound regimes under every flow family AND under flows that vary inside an "
                        "update (time / position dependent, stopping, shear then spin, and the families whose samples at start / midpoint / end of every update coincide), "
                        "regime set on the object or supplied by get_regime, with the returned F compared against an independent DOP853 integration; null forcing that begins after / ends "
@@ -210,6 +213,18 @@ def run(chk):
     rng = np.random.default_rng(chk.seed)
     if br.drivers.get("core", 1) is None:
         cases = dispatch_cases(rng)
+        # the same box on inputs whose slip invariants all vanish exactly (axis-aligned grains + diagonal strain rate; zero strain
+        # rate), and with the ordinals spelled as numpy integers (own PRNG stream)
+        rngd = np.random.default_rng([chk.seed, 0xC07F])
+        zcases = G.zero_invariant_dispatch_cases(rngd)
+        chk.cov["dispatch_zero_invariant_cases"] = len(zcases)
+        spelled = []
+        for c in dispatch_cases(rngd):
+            sp = ("np.int64", "np.int32", "np.uint8")[(c["regime"] + c["phase"] + c["fabric"]) % (2 if chk.tier == "quick" else 3)]
+            if sp == "np.uint8" and c["regime"] < 0:
+                sp = "np.int64"
+            spelled.append(dict(c, present=(sp, None, bool((c["regime"] + c["fabric"]) % 2))))
+        cases = cases + zcases + spelled
         lines = [common.model_line("derivs", [c["regime"], c["phase"], c["fabric"], c["ng"]], G.flat_inputs(c)) for c in cases]
         res = common.run_model(lines, "core")
         hist = chk.cov.setdefault("dispatch_outcomes", {})
@@ -224,7 +239,7 @@ def run(chk):
             if (r[0] == "OK") != (m[0] == "OK") or (r[0] == "ERR" and r[1] != m[1]):
                 bad.append((c, f"derivatives(regime={c['regime']}, phase={c['phase']}, fabric={c['fabric']}): implementation {r[:2] if r[0]=='ERR' else 'returns numbers'}, model {m}"))
             if (exp == "error") != (r[0] == "ERR") or (r[0] == "ERR" and r[1] != "ValueError"):
-                mon.append((dict(regime=c["regime"], phase=c["phase"], fabric=c["fabric"]), 0,
+                mon.append((dict(regime=c["regime"], phase=c["phase"], fabric=c["fabric"], input=c03.encode(c)), 0,
                             f"derivatives(regime={c['regime']}, phase={c['phase']}, fabric={c['fabric']}) " +
                             (f"raised {r[1]}" if r[0] == "ERR" else "returned numbers") + f"; C07 requires {exp}"))
             if r[0] == "OK" and c["regime"] in (0, 7) and (np.any(r[1]) or np.any(r[2])):
@@ -394,6 +409,8 @@ def replay(d):
     if {"regime", "phase", "fabric"} <= set(sc):
         rng = np.random.default_rng(0)
         c = G.case(rng, n_grains=2, pair=(sc["phase"], sc["fabric"]), regime=sc["regime"], okind="haar", lkind="general", fkind="dirichlet")
+        if sc.get("input"):          # the concrete call (texture, strain rate, spelling of the ordinals) that failed
+            c = c03.decode(sc["input"])
         r = c03.impl(core, c)
         exp = expected_dispatch(c)
         bad = (exp == "error") != (r[0] == "ERR") or (r[0] == "ERR" and r[1] != "ValueError")
